@@ -37,11 +37,14 @@ func (p c20Params) name() string {
 }
 
 type c20State struct {
-	p       *vpipe.Pipe
-	live    []string
-	ended   bool
-	endErr  error
-	elapsed int64
+	p     *vpipe.Pipe
+	live  []string
+	ended bool
+	// enderStarted: the history is over (a history may block for ever by itself, e.g. a Write
+	// behind an abandoned Writer: that is the application's doing)
+	enderStarted bool
+	endErr       error
+	elapsed      int64
 }
 
 func c20Setup(prm c20Params) func(c *fw.Ctx, name string) explore.Setup {
@@ -79,6 +82,53 @@ func c20Setup(prm c20Params) func(c *fw.Ctx, name string) explore.Setup {
 						if err == nil {
 							wr.Write(fill(0xB0, 3))
 						}
+					case "pingEnded", "writeEnded", "readEnded", "writerEnded":
+						// a call whose context is already over when it is made: it fails (or not) and
+						// leaves nothing behind
+						ended, cancel := vctx.WithCancel(bg)
+						cancel()
+						switch op {
+						case "pingEnded":
+							conn.Ping(ended)
+						case "writeEnded":
+							conn.Write(ended, websocket.MessageBinary, fill(byte(0xA8+i), 10))
+						case "readEnded":
+							if !closeRead {
+								conn.Read(ended)
+							}
+						case "writerEnded":
+							if wr, err := conn.Writer(ended, websocket.MessageBinary); err == nil {
+								wr.Write(fill(0xB8, 3))
+								wr.Close()
+							}
+						}
+					case "closereadEnded":
+						if !closeRead {
+							ended, cancel := vctx.WithCancel(bg)
+							cancel()
+							conn.CloseRead(ended)
+							closeRead = true
+						}
+					case "pingDupPongs":
+						// the peer answers the Ping three times; the Ping's frame goes out only at 1.5 s
+						// (the transport is busy) and its context ends at 1 s: the pongs, whose payload
+						// the peer predicts, arrive while the Ping is still registered
+						st.p.Window = len(st.p.Out) + 1
+						pc, cancel := vctx.WithTimeout(bg, time.Second)
+						w.GoHarness("ponger", false, func() {
+							vtime.Sleep(200 * time.Millisecond)
+							for j := 0; j < 3; j++ {
+								st.p.Send(peerFrame(k, frame.Frame{Fin: true, Opcode: frame.OpPong, Payload: []byte("1")}))
+							}
+							vtime.Sleep(1300 * time.Millisecond)
+							st.p.SetWindow(0)
+						})
+						if !closeRead {
+							w.GoHarness("reader", false, func() { conn.Read(bg) })
+						}
+						conn.Ping(pc)
+						cancel()
+						vtime.Sleep(time.Second)
 					case "abandonReader":
 						if closeRead {
 							continue
@@ -105,6 +155,7 @@ func c20Setup(prm c20Params) func(c *fw.Ctx, name string) explore.Setup {
 					})
 				}
 				t0 := w.Now
+				st.enderStarted = true
 				switch prm.Ender {
 				case "CloseEcho", "CloseNoEcho":
 					st.endErr = conn.Close(websocket.StatusNormalClosure, "")
@@ -164,7 +215,11 @@ func c20Setup(prm c20Params) func(c *fw.Ctx, name string) explore.Setup {
 				hk := histKind(prm.Hist)
 				c.OutcomeStr(fmt.Sprintf("%s|ended=%v|live=%d|dt=%ds", name, st.ended, len(st.live), st.elapsed/1e9))
 				if !st.ended {
-					// termination is C09's subject
+					// the final Close/CloseNow has not returned within two virtual minutes (every bound of
+					// the library is below 20 s): each such connection keeps its goroutines for ever
+					if live := w.LiveLib(); st.enderStarted && len(live) > 0 && (w.Deadlock || w.HorizonHit) {
+						violate(c, w, name, "C20/goroutines-accumulate/close-never-returns/"+hk+"/"+locus, fmt.Sprintf("history %v, ender %s: the final Close/CloseNow never returns and these library goroutines stay alive: %v (stuck: %v)", prm.Hist, prm.Ender, live, stuckTasks(w)))
+					}
 					return
 				}
 				if len(st.live) > 0 {
@@ -448,6 +503,11 @@ func c20Scenarios(tier string) []scenario {
 		}
 	}
 	gen(nil)
+	// calls made with a context that is already over, and a Ping answered three times while it is
+	// stuck in the transport: alone, after and before CloseRead, followed by a write
+	for _, x := range []string{"pingEnded", "writeEnded", "readEnded", "writerEnded", "closereadEnded", "pingDupPongs"} {
+		hists = append(hists, []string{x}, []string{"closeread", x}, []string{x, "closeread"}, []string{x, "write"}, []string{x, x})
+	}
 	for _, k := range []connCfg{{Client: false}, {Client: true}} {
 		for _, e := range c20Enders {
 			for hi, h := range hists {
